@@ -6,11 +6,12 @@ V = Path(__file__).resolve().parent.parent
 sys.path.insert(0, str(V))
 props = [json.loads(l) for l in (V / "properties.jsonl").read_text().splitlines() if l.strip()]
 NA = json.loads((V / "tools" / "not_applicable.json").read_text()) if (V / "tools" / "not_applicable.json").exists() else {}
+CLAIMED = set(json.loads((V / "tools" / "claimed.json").read_text()))
 checks, na = [], []
 for p in props:
     pid = p["id"]
     f = V / "harness" / f"{pid.lower()}.py"
-    if f.exists():
+    if f.exists() and pid in CLAIMED:
         src = f.read_text()
         def grab(name, default=""):
             m = re.search(name + r'\s*=\s*\(?((?:\s*"(?:[^"\\]|\\.)*"\s*)+)\)?', src)
